@@ -93,6 +93,9 @@ func RunJob(j *Job) *Result {
 		}
 		choices := j.Strategy == "ddfs"
 		lim.Classify = func(path []Event, v *Violation) string {
+			if v.Prop == "C17" && v.Oracle == "checkquorum-stepdown-after-transfer" {
+				return ClassifyKnown(j.Sc, mf, path, choices, v.Prop+"/"+v.Oracle)
+			}
 			return ClassifyKnown(j.Sc, mf, path, choices, v.Prop)
 		}
 		lim.Determinism = j.Prop == "C19"
